@@ -64,8 +64,11 @@ CHECKS = {
     ),
     'C04': dict(
         props=['C04', 'C03'], opts='props=1',
-        quick=[mc(3, SMALL + [3], DEL, GC + ['enable_deferred'], Modes='ModesDeferred')],
-        thorough=[mc(4, MAINSEEDS, DEL, GC + ['enable_deferred'], Modes='ModesDeferred')],
+        quick=[mc(3, SMALL + [3], DEL, GC + ['enable_deferred'], Modes='ModesDeferred'),
+               mc(2, [2, 4, 5, 3], DEL, ['status_gc'], BUSets='BUTwo'),
+               mc(1, [2, 4], [], ['status_gc'])],
+        thorough=[mc(4, MAINSEEDS, DEL, GC + ['enable_deferred'], Modes='ModesDeferred'),
+                  mc(2, MAINSEEDS, DEL, ['status_gc'])],
         sim=dict(ops=DEL + DEL + GC + ADDS + MODE),
     ),
     'C05': dict(
@@ -156,6 +159,42 @@ def match_known(prop, sig, known):
     return None
 
 
+def extra_c08(work, variant, cov, failures):
+    """C08, conversion part: TLAPS proof of the handle algebra for all naturals,
+    and the exhaustive sweep of the C++ conversions over [0, 2^30) validated by TLC."""
+    import subprocess, re
+    vlib.build(variant, ['handles_exec'])
+    r = subprocess.run(['tlapm', '--cleanfp', 'HandleAlg.tla'], cwd=os.path.join(vlib.SPEC, 'proofs'),
+                       stdout=subprocess.PIPE, stderr=subprocess.STDOUT, text=True, timeout=900)
+    m = re.search(r'All (\d+) obligations? proved', r.stdout)
+    cov['tlaps_obligations_proved'] = int(m.group(1)) if m else 0
+    shutil.rmtree(os.path.join(vlib.SPEC, 'proofs', '.tlacache'), ignore_errors=True)
+    if not m:
+        failures.append(dict(msg='MODEL:TLAPS proof of the handle algebra failed', path=[], script='', x=0, model=True,
+                             detail=r.stdout[-3000:]))
+    tr = os.path.join(work, 'handles.ndjson')
+    with open(tr, 'w') as fo:
+        rc = subprocess.run([vlib.exe(variant, 'handles_exec'), '1024', '0'], stdout=fo, timeout=1800).returncode
+    if rc != 0:
+        raise MachineryError('handles_exec failed')
+    cfg = os.path.join(work, 'handles.cfg')
+    open(cfg, 'w').write('SPECIFICATION Spec\nINVARIANT Done\nCHECK_DEADLOCK FALSE\n')
+    env = dict(os.environ, TRACE=tr)
+    r = subprocess.run(['java', '-XX:+UseSerialGC', '-cp', vlib.JAR, 'tlc2.TLC', '-workers', '1', '-metadir',
+                        os.path.join(work, 'hmeta'), '-noGenerateSpecTE', '-config', cfg, 'OVMHandles.tla'],
+                       cwd=vlib.SPEC, env=env, stdout=subprocess.PIPE, stderr=subprocess.STDOUT, text=True, timeout=900)
+    m = re.search(r'<<"VXDONE", (\d+), (\d+), (\d+), (\d+)>>', r.stdout)
+    if r.returncode != 0 or not m:
+        raise MachineryError('OVMHandles validation failed:\n' + r.stdout[-2000:])
+    cov['handle_blocks_validated'] = int(m.group(1))
+    cov['handle_indices_swept'] = int(m.group(1)) * (1 << 20)
+    if int(m.group(3)) > 0:
+        for line in r.stdout.splitlines():
+            if line.startswith('<<"VXBAD"'):
+                failures.append(dict(msg='C08:handle conversions ' + line, path=[], script=tr, x=0, model=True, detail=line))
+                break
+
+
 def run_check(prop, tier, seed, replay=None):
     t0 = time.time()
     cfg = CHECKS[prop]
@@ -163,6 +202,7 @@ def run_check(prop, tier, seed, replay=None):
     work = os.path.join(vlib.RUN, '%s-%s-%d' % (prop, tier, os.getpid()))
     shutil.rmtree(work, ignore_errors=True)
     os.makedirs(work)
+    vlib.snapshot_spec(work)
     vlib.build(variant, ['ovm_exec'])
     known = vlib.load_known()
     failures, crashes, drifts = [], [], []
@@ -206,6 +246,8 @@ def run_check(prop, tier, seed, replay=None):
             cov['traces_validated_against_impl'] += agg['checked']
             cov['impl_steps_executed'] += agg['lines']
             cov['drift_lines'] += agg['drift']
+        if prop == 'C08':
+            extra_c08(work, variant, cov, failures)
         sim = cfg.get('sim')
         if sim:
             ti = 0 if tier == 'quick' else 1
